@@ -30,13 +30,15 @@
 (***************************************************************************)
 EXTENDS TypeLib
 
-FieldTypes == {"u8", "u16", "u32", "u64", "bool", "vecu8", "optu16", "str"}
-IntWidth(t) == CASE t = "u8" -> 1 [] t = "u16" -> 2 [] t = "u32" -> 4 [] t = "u64" -> 8
-IsIntTy(t) == t \in {"u8", "u16", "u32", "u64"}
+\* "gen" is a generic type parameter T of the definition, instantiated with u16 when the program is compiled
+FieldTypes == {"u8", "u16", "u32", "u64", "bool", "vecu8", "optu16", "str", "gen", "vecgen"}
+IntWidth(t) == CASE t = "u8" -> 1 [] t \in {"u16", "gen"} -> 2 [] t = "u32" -> 4 [] t = "u64" -> 8
+IsIntTy(t) == t \in {"u8", "u16", "u32", "u64", "gen"}
 FieldTy(t) ==
   CASE IsIntTy(t) -> TInt(IntWidth(t), FALSE)
     [] t = "bool" -> TBool
     [] t = "vecu8" -> TSeq(U8, "vec")
+    [] t = "vecgen" -> TSeq(U16, "vec")
     [] t = "optu16" -> TOption(U16)
     [] t = "str" -> TStr
 
